@@ -92,3 +92,18 @@ def call(op, inp, fn, shape=ident, timeout=None):
     except Exception as e:
         rec.update(ok=False, out=0, err=type(e).__name__)
     return rec
+
+
+def observe(rec, fn, fallback):
+    """Attach the projected state to a record.  A state that cannot be projected (an object of the wrong type inside a
+    container, a missing attribute) is REPORTED - the step is marked as failed with a shape error - never coerced, and never
+    allowed to stop the worker."""
+    try:
+        rec["obs"] = fn()
+    except Hang:
+        raise
+    except Exception as e:
+        rec["ok"] = False
+        rec["err"] = "shape:state cannot be projected (%s: %s)" % (type(e).__name__, str(e)[:60])
+        rec["obs"] = fallback
+    return rec
